@@ -460,11 +460,17 @@ def check_pep8(grammar, module, text, config=None):
         return 'the PEP 8 checker modified the tree'
     end = module.end_pos
     seen = set()
+    from .oracle import ref_split_lines
+    width = [len(l.rstrip('\r\n')) for l in ref_split_lines(text)]
     for i in issues:
         if not isinstance(i.code, int) or isinstance(i.code, bool) or not isinstance(i.message, str):
             return 'issue with code %r / message %r' % (i.code, i.message)
         if not ((1, 0) <= i.start_pos <= i.end_pos <= end) or i.start_pos[1] < 0 or i.end_pos[1] < 0:
             return 'issue %d at %r-%r outside the file (ends %r)' % (i.code, i.start_pos, i.end_pos, end)
+        for pos in (i.start_pos, i.end_pos):
+            if pos[1] > width[pos[0] - 1] + 1:
+                return 'issue %d at %r-%r: column %d lies beyond the end of line %d (%d characters)' % (
+                    i.code, i.start_pos, i.end_pos, pos[1], pos[0], width[pos[0] - 1])
         k = (i.code, i.start_pos)
         if k in seen:
             return 'issue %r reported twice' % (k,)
